@@ -79,9 +79,12 @@ func TestVerifC12Replay(t *testing.T) {
 }
 
 // c12Pool: a small set of requests built to repeat and to collide: base requests, the same
-// with other headers, from other clients, with another method, and partners whose host+method+path concatenation
-// coincides ("h"+"GET" = "hG"+"ET").
-func c12Pool(r interface{ Intn(int) int }, base []vx.M, clients []vx.M) []vx.M {
+// with other headers, from other clients, with another method, for another host, partners whose
+// host+method+path concatenation coincides ("h"+"GET" = "hG"+"ET"), and requests for the URL a
+// base request is rewritten to.
+// seenAs(q) is the path the backend of q sees (rewriteTarget), "" when q is not dispatched: the pool also holds, for a
+// base request that is rewritten, the request for the rewritten URL itself (same host and method).
+func c12Pool(r interface{ Intn(int) int }, base []vx.M, clients []vx.M, seenAs func(vx.M) string, otherHost func() string) []vx.M {
 	pool := []vx.M{}
 	clone := func(q vx.M) vx.M {
 		c := vx.M{}
@@ -103,6 +106,19 @@ func c12Pool(r interface{ Intn(int) int }, base []vx.M, clients []vx.M) []vx.M {
 		}
 		h["hdr"] = hdr
 		pool = append(pool, h)
+		// the URL q is rewritten to, asked for literally
+		if p := seenAs(q); p != "" && p != vx.Chars(q["path"]) && strings.HasPrefix(p, "/") {
+			v := clone(q)
+			v["path"] = rhChars(p)
+			pool = append(pool, v)
+		}
+		// another host, everything else the same: the two may reach the same entry by different ways
+		// (rules for one host that are passed over, rules for every host)
+		if r.Intn(2) == 0 {
+			v := clone(q)
+			v["host"] = rhChars(otherHost())
+			pool = append(pool, v)
+		}
 		// other client
 		c := clone(q)
 		c["ip"] = clients[r.Intn(len(clients))]
@@ -170,7 +186,37 @@ func TestVerifC12Trace(t *testing.T) {
 		for i := 0; i < 2+r.Intn(3); i++ {
 			base = append(base, rgReq(r, o, cfg, paths, clients))
 		}
-		pool := c12Pool(r, base, clients)
+		// asked of a third, cache-less mux (the recorded two see the recorded requests only)
+		probe, _ := rhNewMux(cfg, 0, false)
+		// if the configuration rewrites at all, one base request at least is one that is rewritten
+		rewritten := func(q vx.M) bool {
+			o := rhServe(probe, q)
+			return vx.Int(o["code"]) == 0 && vx.Chars(o["path"]) != vx.Chars(q["path"])
+		}
+		have := true
+		for _, rv := range vx.List(cfg["rules"]) {
+			for _, ev := range vx.List(rv.(vx.M)["paths"]) {
+				if vx.Chars(ev.(vx.M)["rewrite"]) != "" {
+					have = false
+				}
+			}
+		}
+		for _, q := range base {
+			have = have || rewritten(q)
+		}
+		for k := 0; k < 30 && !have; k++ {
+			if q := rgReq(r, o, cfg, paths, clients); rewritten(q) {
+				base = append(base, q)
+				have = true
+			}
+		}
+		pool := c12Pool(r, base, clients, func(q vx.M) string {
+			if o := rhServe(probe, q); vx.Int(o["code"]) == 0 {
+				return vx.Chars(o["path"])
+			}
+			return ""
+		}, func() string { return rgHost(r, cfg) })
+		probe.m.close()
 		n := minLen + r.Intn(maxLen-minLen+1)
 		var hist []vx.M
 		for i := 0; i < n; i++ {
